@@ -63,6 +63,7 @@ def items(tier, seed):
     gens.append(pomdpspec.enum_pomdps(2, 2, 1, [zero_at_1], [(1,)], [((0, F(1, 4)), (1, F(3, 4)))], [F(9, 10)], kernel_pairs='some'))
     if tier == 'thorough':
         gens.append(pomdpspec.enum_pomdps(2, 2, 1, [RP['state']], [(0,)], [((0, F(1, 2)), (1, F(1, 2)))], [F(1, 2)], kernel_pairs='some'))
+    yield ('lp_seam', 0, 0)
     i = 0
     step = 4 if tier == 'quick' else 1
     for gen in gens:
@@ -164,7 +165,37 @@ def k3_class(ps):
     return False
 
 
+def check_lp_seam(item):
+    """The linear-program seam bounded policy iteration solves its node improvement through: `min p.z  s.t.  G z <= h, A z = b`
+    with NO bounds other than the rows of G (the improvement margin epsilon is a free variable; near convergence its optimum is
+    a tiny negative number).  Every LP of a small lattice with a unique optimum is compared with that optimum."""
+    import msdm.algorithms.fscboundedpolicyiteration as bpi
+    r = Res()
+    # variables (c, eps): maximise eps subject to  eps <= u - c*k,  c = 1   =>  eps* = u - k
+    for u in (-1.0, -1e-7, 0.0, 2.0):
+        for k in (0.0, 1.0):
+            p = np.array([0.0, -1.0])
+            G = np.array([[k, 1.0], [-1.0, 0.0]])        # eps + k c <= u ;  -c <= 0
+            h = np.array([u, 0.0])
+            A = np.array([[1.0, 0.0]])
+            b = np.array([1.0])
+            r.count('states')
+            r.count('transitions')
+            try:
+                res = bpi.Solvers.scipy_lp(p, G, h, A, b)
+                sol = None if res.solution is None else [float(x) for x in res.solution]
+            except Exception as e:
+                r.violation('lp_seam_exception', {'u': u, 'k': k, 'error': repr(e)[:200], 'optimum': [1.0, u - k]}, item)
+                continue
+            if sol is None or abs(sol[0] - 1.0) > 1e-9 or abs(sol[1] - (u - k)) > 1e-9:
+                r.violation('lp_seam_solution', {'u': u, 'k': k, 'got': sol, 'optimum': [1.0, u - k]}, item)
+    r.nontriv('lp_seam')
+    return r
+
+
 def check(item, tier):
+    if item[0] == 'lp_seam':
+        return check_lp_seam(item)
     import torch
     torch.set_num_threads(1)
     import msdm.algorithms.fscgradientascent as ga
